@@ -40,8 +40,9 @@ TMap == /\ Is("os") /\ Ev.k = "M" /\ cur # NoCall
         /\ cur.name \in {"CreateVm", "AllocCache"}
         /\ buf' = [a \in DOMAIN buf \cup {Ev.a} |-> IF a = Ev.a THEN [owner |-> OwnerOf(cur), prot |-> Ev.prot] ELSE buf[a]]
         /\ UNCHANGED cur
+\* (a request the operating system refused changes nothing)
 TProtect == /\ Is("os") /\ Ev.k = "P" /\ cur # NoCall
-            /\ IF Ev.a \in DOMAIN buf THEN buf' = [buf EXCEPT ![Ev.a].prot = Ev.prot] ELSE UNCHANGED buf
+            /\ IF Ev.a \in DOMAIN buf /\ ~("ok" \in DOMAIN Ev /\ ~Ev.ok) THEN buf' = [buf EXCEPT ![Ev.a].prot = Ev.prot] ELSE UNCHANGED buf
             /\ UNCHANGED cur
 TUnmap == /\ Is("os") /\ Ev.k = "U"
           /\ buf' = [a \in DOMAIN buf \ {Ev.a} |-> buf[a]]
